@@ -58,11 +58,17 @@ impl Timestamp {
 impl Display for Timestamp {
     /// ISO 8601 format: `YYYY-MM-DD HH:MM:SS`
     fn fmt(&self, f: &mut Formatter<'_>) -> std::fmt::Result {
-        let dt = DateTime::from_timestamp_millis((self.0 - THIRTY_YEARS_MICROSECONDS) / 1000)
-            .ok_or(std::fmt::Error)?
-            .naive_utc();
-        naive_sys_fmt(&dt, f)
+        match to_naive_utc(self.0) {
+            Some(dt) => naive_sys_fmt(&dt, f),
+            None => write!(f, "<timestamp out of range: {} us>", self.0),
+        }
     }
+}
+
+/// The UTC date-time of a stored value, `None` if chrono cannot represent it.
+fn to_naive_utc(us: i64) -> Option<NaiveDateTime> {
+    let millis = us.checked_sub(THIRTY_YEARS_MICROSECONDS)? / 1000;
+    Some(DateTime::from_timestamp_millis(millis)?.naive_utc())
 }
 
 impl FromStr for Timestamp {
@@ -93,11 +99,10 @@ impl TimestampTz {
 
 impl Display for TimestampTz {
     fn fmt(&self, f: &mut Formatter<'_>) -> std::fmt::Result {
-        let dt = DateTime::from_timestamp_millis((self.0 - THIRTY_YEARS_MICROSECONDS) / 1000)
-            .ok_or(std::fmt::Error)?
-            .naive_utc();
         let sys_tz = TIME_ZONE.get_or_init(|| FixedOffset::east_opt(DEFALUT_TZ * 3600).unwrap());
-        let dt = dt + *sys_tz;
+        let Some(dt) = to_naive_utc(self.0).and_then(|dt| dt.checked_add_offset(*sys_tz)) else {
+            return write!(f, "<timestamp out of range: {} us>", self.0);
+        };
         naive_sys_fmt(&dt, f)?;
         write!(f, " {}", sys_tz)
     }
